@@ -728,10 +728,34 @@ func ruleOwnershipMarksSurvive(w *World, r *Report, prop, rule string) {
 				kept = true
 				return
 			}
-			if onlyVia(upd, st, func(a, b *ssa.BasicBlock) bool {
+			markEdge := func(a, b *ssa.BasicBlock) bool {
 				v, truth, ok := boolEdge(a, b)
 				return ok && truth && elemField(v, field, 0)
-			}) {
+			}
+			if onlyVia(upd, st, markEdge) {
+				kept = true
+			}
+			// the same control dependence when the new mark is computed as one expression
+			// (`own || (stored && cond)`): an alternative of the value that can set the mark and is
+			// taken only under the stored element's mark
+			var chosenUnderMark func(v ssa.Value, d int) bool
+			chosenUnderMark = func(v ssa.Value, d int) bool {
+				phi, ok := v.(*ssa.Phi)
+				if !ok || d > 4 {
+					return false
+				}
+				for k, e := range phi.Edges {
+					if c, isK := constBool(e); (isK && !c) || k >= len(phi.Block().Preds) {
+						continue
+					}
+					p := phi.Block().Preds[k]
+					if markEdge(p, phi.Block()) || (len(p.Instrs) > 0 && onlyVia(upd, p.Instrs[len(p.Instrs)-1], markEdge)) || chosenUnderMark(e, d+1) {
+						return true
+					}
+				}
+				return false
+			}
+			if chosenUnderMark(st.Val, 0) {
 				kept = true
 			}
 		})
